@@ -327,7 +327,9 @@ FailureLeavesFirstUndisturbed ==
 -----------------------------------------------------------------------------
 \* model checking: the documented implementation (results within exp), optionally with a planted defect
 
-CONSTANTS CfgSet, ReqChoices, MaxVal, Faulty
+CONSTANTS CfgSet,     \* configurations to start from
+          Univ(_),    \* configuration -> [W, R, N, K, Q, maxv]: ids / requirement values / versions explored
+          Faulty      \* "none" or the name of a planted defect
 
 MCInit == \E c \in CfgSet : InitWith(c) /\ ocnt = <<0, 0, 1>>
 
@@ -341,31 +343,41 @@ CreateReaderResults ==
 GetValues(k) == IF Faulty = "stale_read" THEN wrote[k] ELSE {val[k]}
 Leftover == IF Faulty = "leftover" /\ last'.res # "ok" /\ last'.a = "cw" THEN 1 ELSE 0
 
-MCStep ==
-    \/ \E n \in NIds, rq \in ReqChoices, nq \in ReqChoices : \E res \in ExpOpen(rq, nq) : OpenNode(n, rq, nq, res)
-    \/ \E n \in NIds : CloseNode(n)
-    \/ \E w \in WIds, n \in NIds : \E res \in CreateWriterResults : CreateWriter(w, n, res)
-    \/ \E w \in WIds : DropWriter(w, "ok")
-    \/ \E w \in WIds, k \in KeyIds, ty \in {0, 1} : \E res \in WEntryResults(k, ty) : WEntry(w, k, ty, res)
-    \/ \E w \in WIds, k \in KeyIds :
-          \/ WDrop(w, k, "ok")
-          \/ Update(w, k, nextv[k] + 1, "ok")
-          \/ Loan(w, k, "ok")
-          \/ LoanWrite(w, k, nextv[k] + 1, "ok")
-          \/ Commit(w, k, "ok")
-          \/ CommitCopy(w, k, nextv[k] + 1, "ok")
-          \/ Discard(w, k, "ok")
-    \/ \E r \in RIds, n \in NIds : \E res \in CreateReaderResults : CreateReader(r, n, res)
-    \/ \E r \in RIds : DropReader(r, "ok")
-    \/ \E r \in RIds, k \in KeyIds, ty \in {0, 1} : \E res \in ExpREntry(k, ty) : REntry(r, k, ty, res)
-    \/ \E r \in RIds, k \in KeyIds :
-          \/ RDrop(r, k, "ok")
-          \/ \E v \in GetValues(k) : Get(r, k, v, k, TRUE, "ok")
+Obs == ocnt' = <<Counts'[1] + Leftover, Counts'[2], Counts'[3]>>
+UU == Univ(cfg)
+Refusals(S) == S \ Ok
 
-MCNext == MCStep /\ ocnt' = <<Counts'[1] + Leftover, Counts'[2], Counts'[3]>>
+MCOpenOk == \E n \in UU.N, rq \in UU.Q, nq \in UU.Q : "ok" \in ExpOpen(rq, nq) /\ OpenNode(n, rq, nq, "ok") /\ Obs
+MCOpenRefused == \E n \in UU.N, rq \in UU.Q, nq \in UU.Q : \E res \in Refusals(ExpOpen(rq, nq)) : OpenNode(n, rq, nq, res) /\ Obs
+MCClose == \E n \in UU.N : CloseNode(n) /\ Obs
+MCCreateWriterOk == \E w \in UU.W, n \in UU.N : "ok" \in CreateWriterResults /\ CreateWriter(w, n, "ok") /\ Obs
+MCCreateWriterRefused == \E w \in UU.W, n \in UU.N : \E res \in Refusals(CreateWriterResults) : CreateWriter(w, n, res) /\ Obs
+MCDropWriter == \E w \in UU.W : DropWriter(w, "ok") /\ Obs
+MCWEntryOk == \E w \in UU.W, k \in UU.K, ty \in {0, 1} : "ok" \in WEntryResults(k, ty) /\ WEntry(w, k, ty, "ok") /\ Obs
+MCWEntryRefused == \E w \in UU.W, k \in UU.K, ty \in {0, 1} : \E res \in Refusals(WEntryResults(k, ty)) : WEntry(w, k, ty, res) /\ Obs
+MCWDrop == \E w \in UU.W, k \in UU.K : WDrop(w, k, "ok") /\ Obs
+MCUpdate == \E w \in UU.W, k \in UU.K : Update(w, k, nextv[k] + 1, "ok") /\ Obs
+MCLoan == \E w \in UU.W, k \in UU.K : Loan(w, k, "ok") /\ Obs
+MCLoanWrite == \E w \in UU.W, k \in UU.K : LoanWrite(w, k, nextv[k] + 1, "ok") /\ Obs
+MCCommit == \E w \in UU.W, k \in UU.K : Commit(w, k, "ok") /\ Obs
+MCCommitCopy == \E w \in UU.W, k \in UU.K : CommitCopy(w, k, nextv[k] + 1, "ok") /\ Obs
+MCDiscard == \E w \in UU.W, k \in UU.K : Discard(w, k, "ok") /\ Obs
+MCCreateReaderOk == \E r \in UU.R, n \in UU.N : "ok" \in CreateReaderResults /\ CreateReader(r, n, "ok") /\ Obs
+MCCreateReaderRefused == \E r \in UU.R, n \in UU.N : \E res \in Refusals(CreateReaderResults) : CreateReader(r, n, res) /\ Obs
+MCDropReader == \E r \in UU.R : DropReader(r, "ok") /\ Obs
+MCREntryOk == \E r \in UU.R, k \in UU.K : REntry(r, k, 0, "ok") /\ "ok" \in ExpREntry(k, 0) /\ Obs
+MCREntryRefused == \E r \in UU.R, k \in UU.K, ty \in {0, 1} : \E res \in Refusals(ExpREntry(k, ty)) : REntry(r, k, ty, res) /\ Obs
+MCRDrop == \E r \in UU.R, k \in UU.K : RDrop(r, k, "ok") /\ Obs
+MCGet == \E r \in UU.R, k \in UU.K : \E v \in GetValues(k) : Get(r, k, v, k, TRUE, "ok") /\ Obs
+
+MCNext ==
+    \/ MCOpenOk \/ MCOpenRefused \/ MCClose
+    \/ MCCreateWriterOk \/ MCCreateWriterRefused \/ MCDropWriter
+    \/ MCWEntryOk \/ MCWEntryRefused \/ MCWDrop
+    \/ MCUpdate \/ MCLoan \/ MCLoanWrite \/ MCCommit \/ MCCommitCopy \/ MCDiscard
+    \/ MCCreateReaderOk \/ MCCreateReaderRefused \/ MCDropReader
+    \/ MCREntryOk \/ MCREntryRefused \/ MCRDrop \/ MCGet
 MCSpec == MCInit /\ [][MCNext]_vars
 
-Bounded == \A k \in KeyIds : nextv[k] <= MaxVal
-\* the fingerprint leaves out the observation records (they are functions of the step, not state)
-MCView == bvars
+Bounded == \A k \in KeyIds : nextv[k] <= Univ(cfg).maxv
 =============================================================================
